@@ -753,6 +753,12 @@ func raceFastScaled(f string, scale float64) *solveResult {
 		zt = 1
 	}
 	cmds := [][]string{{"z3-new", fmt.Sprintf("-T:%d", zt), f}, {"cvc5", "--full-saturate-quant", fmt.Sprintf("--tlimit=%d", int(6000*loadFactor*scale)), f}}
+	// third racer: old z3 on the pre-instantiated (quantifier-free) weakening,
+	// where computing that weakening is cheap for this unit's queries
+	if pf := cheapPreinst(f); pf != "" {
+		defer os.Remove(pf)
+		cmds = append(cmds, []string{"z3", fmt.Sprintf("-T:%d", int(6*loadFactor*scale+0.5)), pf, "+preinst"})
+	}
 	ch := make(chan ans, len(cmds))
 	for _, c := range cmds {
 		go func(c []string) {
@@ -764,8 +770,14 @@ func raceFastScaled(f string, scale float64) *solveResult {
 			}
 			defer func() { <-procSlots }()
 			t0 := time.Now()
-			out, _ := exec.CommandContext(ctx, c[0], c[1:]...).CombinedOutput()
-			ch <- ans{c[0], string(out), time.Since(t0).Milliseconds()}
+			name := c[0]
+			args := c[1:]
+			if args[len(args)-1] == "+preinst" {
+				name += "+preinst"
+				args = args[:len(args)-1]
+			}
+			out, _ := exec.CommandContext(ctx, c[0], args...).CombinedOutput()
+			ch <- ans{name, string(out), time.Since(t0).Milliseconds()}
 		}(c)
 	}
 	for range cmds {
@@ -906,4 +918,42 @@ func (o *Obl) quantifiedAssumptions() int {
 		}
 	}
 	return n
+}
+
+
+// cheapPreinst writes the pre-instantiated variant of the query in file f next
+// to it, unless pre-instantiation has proved expensive for queries of this size
+// class (it is quadratic in the number of ground terms; the wal.go transaction
+// proofs take seconds, the codec proofs milliseconds).
+var (
+	preinstMu    sync.Mutex
+	preinstSlow  = map[int]bool{}
+)
+
+func cheapPreinst(f string) string {
+	data, err := os.ReadFile(f)
+	if err != nil {
+		return ""
+	}
+	q := string(data)
+	class := strings.Count(q, "(forall ") // queries of one unit have similar quantifier counts
+	preinstMu.Lock()
+	slow := preinstSlow[class]
+	preinstMu.Unlock()
+	if slow {
+		return ""
+	}
+	t0 := time.Now()
+	pq := PreInstantiate(q, 3)
+	if time.Since(t0) > 250*time.Millisecond {
+		preinstMu.Lock()
+		preinstSlow[class] = true
+		preinstMu.Unlock()
+	}
+	if pq == "" {
+		return ""
+	}
+	pf := f + ".pre"
+	os.WriteFile(pf, []byte(pq), 0644)
+	return pf
 }
